@@ -11,6 +11,7 @@ import (
 // ---------------------------------------------------------------- random type-directed generator
 
 type c02EnvVar struct {
+	ID      int // unique: usage is tracked per binder, names may be shadowed
 	Name    string
 	Ty      *c02Ty
 	IsParam bool
@@ -19,25 +20,29 @@ type c02EnvVar struct {
 type c02G struct {
 	rng        *Rng
 	env        []c02EnvVar
-	usedFn     map[string]bool // function-typed variables already used (applied or passed): at most once
-	used       map[string]bool
+	usedFn     map[int]bool // function-typed variables already used (applied or passed): at most once
+	used       map[int]bool
+	needDet    []string // parameters compared with each other: get a type-determining use at the end
 	nvar       int
+	nid        int
+	nShadow    int
 	sigs       []*c02Sig // library + earlier user functions
 	pool       []*c02Ty  // types to draw let-bound values / instantiations from
-	allowGN    bool      // generic named types may flow through unification (hazard stream)
-	underscore bool      // "_" binders in destructuring lets (hazard stream)
+	allowGN    bool      // hazard stream: type arguments of generic records/unions may contain type variables
+	underscore bool      // "_" binders in destructuring lets
 	nrigid     int
 }
 
 type c02State struct {
-	envLen int
-	usedFn map[string]bool
-	used   map[string]bool
-	nvar   int
+	envLen  int
+	usedFn  map[int]bool
+	used    map[int]bool
+	nvar    int
+	needDet int
 }
 
 func (g *c02G) save() c02State {
-	s := c02State{envLen: len(g.env), usedFn: map[string]bool{}, used: map[string]bool{}, nvar: g.nvar}
+	s := c02State{envLen: len(g.env), usedFn: map[int]bool{}, used: map[int]bool{}, nvar: g.nvar, needDet: len(g.needDet)}
 	for k, v := range g.usedFn {
 		s.usedFn[k] = v
 	}
@@ -49,6 +54,53 @@ func (g *c02G) save() c02State {
 func (g *c02G) restore(s c02State) {
 	g.env = g.env[:s.envLen]
 	g.usedFn, g.used, g.nvar = s.usedFn, s.used, s.nvar
+	g.needDet = g.needDet[:s.needDet]
+}
+
+func (g *c02G) push(name string, t *c02Ty, isParam bool) c02EnvVar {
+	g.nid++
+	v := c02EnvVar{ID: g.nid, Name: name, Ty: t, IsParam: isParam}
+	g.env = append(g.env, v)
+	return v
+}
+
+// the binders a name can refer to here: later binders shadow earlier ones of the same name
+func (g *c02G) visible() []c02EnvVar {
+	seen := map[string]bool{}
+	var out []c02EnvVar
+	for i := len(g.env) - 1; i >= 0; i-- {
+		if !seen[g.env[i].Name] {
+			seen[g.env[i].Name] = true
+			out = append(out, g.env[i])
+		}
+	}
+	for i, j := 0, len(out)-1; i < j; i, j = i+1, j-1 {
+		out[i], out[j] = out[j], out[i]
+	}
+	return out
+}
+
+// lambda parameter name: fresh, or (shadowing) the name of a visible non-function binder of another type
+func (g *c02G) lamName(t *c02Ty, taken []string) string {
+	if g.rng.Chance(35, 100) {
+		var cs []string
+		for _, v := range g.visible() {
+			dup := false
+			for _, x := range taken {
+				if x == v.Name {
+					dup = true
+				}
+			}
+			if !dup && v.Ty.K != "fun" && !c02Eq(v.Ty, t) {
+				cs = append(cs, v.Name)
+			}
+		}
+		if len(cs) > 0 {
+			g.nShadow++
+			return Choose(g.rng, cs)
+		}
+	}
+	return g.fresh("x")
 }
 
 func (g *c02G) fresh(prefix string) string {
@@ -57,17 +109,17 @@ func (g *c02G) fresh(prefix string) string {
 }
 
 func (g *c02G) useVar(v c02EnvVar) *c02Exp {
-	g.used[v.Name] = true
+	g.used[v.ID] = true
 	if v.Ty.K == "fun" {
-		g.usedFn[v.Name] = true
+		g.usedFn[v.ID] = true
 	}
 	return &c02Exp{K: "var", Name: v.Name}
 }
 
 func (g *c02G) varsOf(t *c02Ty) []c02EnvVar {
 	var out []c02EnvVar
-	for _, v := range g.env {
-		if c02Eq(v.Ty, t) && !(v.Ty.K == "fun" && g.usedFn[v.Name]) {
+	for _, v := range g.visible() {
+		if c02Eq(v.Ty, t) && !(v.Ty.K == "fun" && g.usedFn[v.ID]) {
 			out = append(out, v)
 		}
 	}
@@ -86,40 +138,69 @@ func (g *c02G) randBase() *c02Ty {
 
 // random non-function type
 func (g *c02G) randTy(d int, rigid bool) *c02Ty {
+	t := g.randTy0(d, rigid)
+	if !g.allowGN && c02NestedGN(t, false) {
+		// a generic record/union inside the type arguments of another one: fc emits ill-formed types for
+		// some of these (same family as the known finding); not in the main stream
+		return g.randBase()
+	}
+	return t
+}
+
+func c02NestedGN(t *c02Ty, inside bool) bool {
+	gn := t.K == "named" && len(t.Args) > 0
+	if gn && inside {
+		return true
+	}
+	for _, a := range t.Args {
+		if c02NestedGN(a, inside || gn) {
+			return true
+		}
+	}
+	return false
+}
+
+func (g *c02G) randTy0(d int, rigid bool) *c02Ty {
 	r := g.rng.Intn(100)
 	if rigid && g.nrigid > 0 && r < 30 {
 		return c02Var(g.rng.Intn(g.nrigid))
 	}
+	// type arguments of generic records/unions: ground in the main stream (fc leaves type variables
+	// inside them unresolved in some flows: known finding, hazard stream)
+	inner := rigid && g.allowGN
 	if g.allowGN && d > 0 && r >= 30 && r < 60 {
 		switch g.rng.Intn(3) {
 		case 0:
-			return c02Named("Box", g.randTy(d-1, rigid))
+			return c02Named("Box", g.randTy0(d-1, inner))
 		case 1:
-			return c02Named("Opt", g.randTy(d-1, rigid))
+			return c02Named("Opt", g.randTy0(d-1, inner))
 		}
-		return c02Named("Two", g.randTy(d-1, rigid), g.randTy(d-1, rigid))
+		return c02Named("Two", g.randTy0(d-1, inner), g.randTy0(d-1, inner))
 	}
 	if d <= 0 || r < 55 {
 		return g.randBase()
 	}
 	switch {
 	case r < 70:
-		return c02Slice(g.randTy(d-1, rigid))
+		return c02Slice(g.randTy0(d-1, rigid))
 	case r < 82:
-		return c02Tuple(g.randTy(d-1, rigid), g.randTy(d-1, rigid))
+		return c02Tuple(g.randTy0(d-1, rigid), g.randTy0(d-1, rigid))
 	case r < 86:
-		return c02Tuple(g.randTy(d-1, rigid), g.randTy(d-1, rigid), g.randTy(d-1, rigid))
+		return c02Tuple(g.randTy0(d-1, rigid), g.randTy0(d-1, rigid), g.randTy0(d-1, rigid))
 	case r < 91:
 		return c02Named(Choose(g.rng, []string{"Rec", "Pt", "Shp"}))
 	case !g.allowGN:
+		// generic records/unions: not in the random main stream (fc still mishandles several flows of
+		// them - spurious type parameters, ill-formed nested arguments; see the findings); the twobox
+		// family and the construct-only steps of the shape stream cover the flows that work
 		return g.randBase()
 	case r < 96:
 		if g.rng.Bool() {
-			return c02Named("Box", g.randTy(d-1, rigid))
+			return c02Named("Box", g.randTy0(d-1, inner))
 		}
-		return c02Named("Opt", g.randTy(d-1, rigid))
+		return c02Named("Opt", g.randTy0(d-1, inner))
 	}
-	return c02Named("Two", g.randTy(d-1, rigid), g.randTy(d-1, rigid))
+	return c02Named("Two", g.randTy0(d-1, inner), g.randTy0(d-1, inner))
 }
 
 func (g *c02G) randFunTy(rigid bool) *c02Ty {
@@ -182,39 +263,6 @@ func (g *c02G) instMember(d *c02Decl, t *c02Ty, m *c02Ty) *c02Ty {
 // gen: an expression of type t. free = the position does not unify t with an expected type
 // (let right-hand side, final expression, tuple component thereof).
 func (g *c02G) gen(t *c02Ty, d int, free bool) *c02Exp {
-	if !g.allowGN && t.hasGenericNamed() {
-		// generic named types: a bare parameter anywhere; constructed only in free positions
-		var ps []c02EnvVar
-		for _, v := range g.varsOf(t) {
-			if v.IsParam {
-				ps = append(ps, v)
-			}
-		}
-		if !free {
-			if len(ps) > 0 {
-				return g.useVar(Choose(g.rng, ps))
-			}
-			return nil
-		}
-		if len(ps) > 0 && g.rng.Bool() {
-			return g.useVar(Choose(g.rng, ps))
-		}
-		switch t.K {
-		case "tuple":
-			var args []*c02Exp
-			for _, a := range t.Args {
-				x := g.gen(a, d-1, true)
-				if x == nil {
-					return nil
-				}
-				args = append(args, x)
-			}
-			return &c02Exp{K: "tuple", Args: args}
-		case "named":
-			return g.construct(t, d)
-		}
-		return nil
-	}
 	vars := g.varsOf(t)
 	if len(vars) > 0 && (d <= 0 || g.rng.Chance(45, 100)) {
 		return g.useVar(Choose(g.rng, vars))
@@ -229,9 +277,9 @@ func (g *c02G) gen(t *c02Ty, d int, free bool) *c02Exp {
 	var cs []cand
 	add := func(w int, f func() *c02Exp) { cs = append(cs, cand{w, f}) }
 	// application of a function-typed local (used once)
-	for _, v := range g.env {
+	for _, v := range g.visible() {
 		v := v
-		if v.Ty.K == "fun" && !g.usedFn[v.Name] && c02Eq(v.Ty.funRes(), t) {
+		if v.Ty.K == "fun" && !g.usedFn[v.ID] && c02Eq(v.Ty.funRes(), t) {
 			add(8, func() *c02Exp { return g.callLocal(v, d) })
 		}
 	}
@@ -262,9 +310,9 @@ func (g *c02G) gen(t *c02Ty, d int, free bool) *c02Exp {
 		}
 	}
 	// field access on a variable of record type
-	for _, v := range g.env {
+	for _, v := range g.visible() {
 		v := v
-		if v.Ty.K == "named" && (g.allowGN || len(v.Ty.Args) == 0 || v.IsParam) {
+		if v.Ty.K == "named" {
 			dcl := c02DeclOf(v.Ty.Name)
 			if !dcl.Record {
 				continue
@@ -273,13 +321,15 @@ func (g *c02G) gen(t *c02Ty, d int, free bool) *c02Exp {
 				m := m
 				if c02Eq(g.instMember(dcl, v.Ty, m.Ty), t) {
 					add(6, func() *c02Exp {
-						return &c02Exp{K: "field", Name: dcl.Name, Name2: m.Name, Args: []*c02Exp{g.useVar(v)}}
+						return &c02Exp{K: "field", Name: dcl.Name, Name2: m.Name, Ty: t, Args: []*c02Exp{g.useVar(v)}}
 					})
 				}
 			}
 		}
 	}
-	if t.K != "fun" {
+	// an if/else whose type mentions a generic record/union: fc leaks internal type variables there
+	// (known finding generic-named-args-not-unified, hazard templates)
+	if t.K != "fun" && (g.allowGN || !t.hasGenericNamed()) {
 		add(2, func() *c02Exp {
 			c := g.gen(c02Bool, d-1, false)
 			a := g.gen(t, d-1, false)
@@ -330,6 +380,32 @@ func (g *c02G) gen(t *c02Ty, d int, free bool) *c02Exp {
 				a, b = b, a
 			}
 			return &c02Exp{K: "cmp", Name: Choose(g.rng, []string{"<", ">", "<=", ">="}), Args: []*c02Exp{a, b}}
+		})
+		// ordering comparison between two parameters; what determines their type comes later
+		// (a determining use is appended to the final expression of the function)
+		add(16, func() *c02Exp {
+			var ps []c02EnvVar
+			for _, v := range g.visible() {
+				if v.IsParam && (v.Ty.K == "int" || v.Ty.K == "string") {
+					ps = append(ps, v)
+				}
+			}
+			if len(ps) < 2 {
+				return nil
+			}
+			a := Choose(g.rng, ps)
+			var bs []c02EnvVar
+			for _, v := range ps {
+				if v.ID != a.ID && c02Eq(v.Ty, a.Ty) {
+					bs = append(bs, v)
+				}
+			}
+			if len(bs) == 0 {
+				return nil
+			}
+			b := Choose(g.rng, bs)
+			g.needDet = append(g.needDet, a.Name)
+			return &c02Exp{K: "cmp", Name: Choose(g.rng, []string{"<", ">", "<=", ">="}), Args: []*c02Exp{g.useVar(a), g.useVar(b)}}
 		})
 		add(4, func() *c02Exp {
 			et := Choose(g.rng, []*c02Ty{c02Int, c02Str, c02Bool, c02Tuple(c02Int, c02Str), g.poolTy()})
@@ -422,8 +498,8 @@ func (g *c02G) gen(t *c02Ty, d int, free bool) *c02Exp {
 }
 
 func (g *c02G) callLocal(v c02EnvVar, d int) *c02Exp {
-	g.used[v.Name] = true
-	g.usedFn[v.Name] = true
+	g.used[v.ID] = true
+	g.usedFn[v.ID] = true
 	var args []*c02Exp
 	for _, a := range v.Ty.funArgs() {
 		x := g.gen(a, d-1, false)
@@ -474,7 +550,8 @@ func (g *c02G) construct(t *c02Ty, d int) *c02Exp {
 		m := dcl.Members[i]
 		if m.Ty == nil {
 			if dcl.K > 0 && !g.allowGN {
-				continue // the type argument of a payload-less generic case has to come from unification
+				// fc emits New_Opt_Non() without type arguments; Go cannot always infer them
+				continue
 			}
 			return &c02Exp{K: "ctor", Name: dcl.Name, Name2: m.Name}
 		}
@@ -496,9 +573,9 @@ func (g *c02G) lambda(t *c02Ty, d int) *c02Exp {
 			g.restore(st)
 			return nil
 		}
-		x := g.fresh("x")
+		x := g.lamName(a, xs)
 		xs = append(xs, x)
-		g.env = append(g.env, c02EnvVar{Name: x, Ty: a})
+		g.push(x, a, false)
 	}
 	body := g.gen(t.funRes(), d-1, false)
 	g.env = g.env[:st.envLen]
@@ -513,9 +590,6 @@ func (g *c02G) lambda(t *c02Ty, d int) *c02Exp {
 func (g *c02G) terminal(t *c02Ty, d int) *c02Exp {
 	if vars := g.varsOf(t); len(vars) > 0 && (t.K == "var" || t.K == "fun" || g.rng.Chance(2, 3)) {
 		return g.useVar(Choose(g.rng, vars))
-	}
-	if !g.allowGN && t.hasGenericNamed() {
-		return nil
 	}
 	switch t.K {
 	case "int", "string", "bool":
@@ -548,9 +622,9 @@ func (g *c02G) terminal(t *c02Ty, d int) *c02Exp {
 			if a.K == "fun" {
 				return nil
 			}
-			x := g.fresh("x")
+			x := g.lamName(a, xs)
 			xs = append(xs, x)
-			g.env = append(g.env, c02EnvVar{Name: x, Ty: a})
+			g.push(x, a, false)
 		}
 		body := g.terminal(t.funRes(), d-1)
 		g.env = g.env[:st.envLen]
@@ -564,8 +638,9 @@ func (g *c02G) terminal(t *c02Ty, d int) *c02Exp {
 			return nil
 		}
 		// derive a value of a rigid type from what is in scope
-		for _, i := range g.rng.Perm(len(g.env)) {
-			v := g.env[i]
+		vis := g.visible()
+		for _, i := range g.rng.Perm(len(vis)) {
+			v := vis[i]
 			switch v.Ty.K {
 			case "slice":
 				if c02Eq(v.Ty.Args[0], t) {
@@ -581,10 +656,10 @@ func (g *c02G) terminal(t *c02Ty, d int) *c02Exp {
 					}
 				}
 			case "fun":
-				if !g.usedFn[v.Name] && c02Eq(v.Ty.funRes(), t) {
+				if !g.usedFn[v.ID] && c02Eq(v.Ty.funRes(), t) {
 					st := g.save()
-					g.used[v.Name] = true
-					g.usedFn[v.Name] = true
+					g.used[v.ID] = true
+					g.usedFn[v.ID] = true
 					var args []*c02Exp
 					ok := true
 					for _, a := range v.Ty.funArgs() {
@@ -621,25 +696,26 @@ func (g *c02G) genBlock(t *c02Ty, d int, budget int) *c02Exp {
 			rhs := g.gen(tt, d-1, true)
 			if rhs != nil && rhs.K != "tuple" {
 				var xs []string
+				var ids []int
 				for _, ct := range comps {
 					x := g.fresh("v")
 					xs = append(xs, x)
-					g.env = append(g.env, c02EnvVar{Name: x, Ty: ct})
+					ids = append(ids, g.push(x, ct, false).ID)
 				}
 				rest := g.genBlock(t, d, budget-1)
 				if rest != nil {
 					any := false
-					for _, x := range xs {
-						if g.used[x] {
+					for _, id := range ids {
+						if g.used[id] {
 							any = true
 						}
 					}
 					if any {
 						for i, x := range xs {
-							if g.used[x] {
+							if g.used[ids[i]] {
 								continue
 							}
-							if g.underscore {
+							if g.underscore && g.rng.Bool() {
 								xs[i] = "_"
 							} else {
 								// Go rejects unused locals: give the binder a use that does not constrain its type
@@ -655,16 +731,16 @@ func (g *c02G) genBlock(t *c02Ty, d int, budget int) *c02Exp {
 			rhs := g.gen(lt, d-1, true)
 			if rhs != nil && rhs.K != "var" {
 				x := g.fresh("v")
-				g.env = append(g.env, c02EnvVar{Name: x, Ty: lt})
+				id := g.push(x, lt, false).ID
 				rest := g.genBlock(t, d, budget-1)
-				if rest != nil && g.used[x] {
+				if rest != nil && g.used[id] {
 					return &c02Exp{K: "let", Name: x, Args: []*c02Exp{rhs, rest}}
 				}
 			}
 		}
 		g.restore(st)
 	}
-	if budget > 0 && d > 1 && g.rng.Chance(12, 100) {
+	if budget > 0 && d > 1 && (g.allowGN || !t.hasGenericNamed()) && g.rng.Chance(12, 100) {
 		st := g.save()
 		c := g.gen(c02Bool, d-1, false)
 		if c != nil {
@@ -675,6 +751,9 @@ func (g *c02G) genBlock(t *c02Ty, d int, budget int) *c02Exp {
 				b := g.genBlock(t, d-1, budget-1)
 				g.env = g.env[:envLen]
 				if b != nil {
+					if b.K == "if" && b.Block && g.rng.Bool() {
+						b.Elif = true
+					}
 					return &c02Exp{K: "if", Block: true, Args: []*c02Exp{c, a, b}}
 				}
 			}
@@ -690,15 +769,49 @@ func c02WrapFinal(e *c02Exp, x string) *c02Exp {
 	case e.K == "let" || e.K == "lettup":
 		return &c02Exp{K: e.K, Name: e.Name, Xs: e.Xs, Args: []*c02Exp{e.Args[0], c02WrapFinal(e.Args[1], x)}}
 	case e.K == "if" && e.Block:
-		return &c02Exp{K: "if", Block: true, Args: []*c02Exp{e.Args[0], c02WrapFinal(e.Args[1], x), c02WrapFinal(e.Args[2], x)}}
+		return &c02Exp{K: "if", Block: true, Elif: e.Elif, Args: []*c02Exp{e.Args[0], c02WrapFinal(e.Args[1], x), c02WrapFinal(e.Args[2], x)}}
 	}
 	return &c02Exp{K: "global", Name: "frt.Fst", Args: []*c02Exp{{K: "tuple", Args: []*c02Exp{e, {K: "var", Name: x}}}}}
+}
+
+// (frt.Fst (e, w)) at the final expression(s) of a block, for an arbitrary inline expression w
+func c02WrapFinalExp(e *c02Exp, w *c02Exp) *c02Exp {
+	switch {
+	case e.K == "let" || e.K == "lettup":
+		return &c02Exp{K: e.K, Name: e.Name, Xs: e.Xs, Args: []*c02Exp{e.Args[0], c02WrapFinalExp(e.Args[1], w)}}
+	case e.K == "if" && e.Block:
+		return &c02Exp{K: "if", Block: true, Elif: e.Elif, Args: []*c02Exp{e.Args[0], c02WrapFinalExp(e.Args[1], w), c02WrapFinalExp(e.Args[2], w)}}
+	}
+	return &c02Exp{K: "global", Name: "frt.Fst", Args: []*c02Exp{{K: "tuple", Args: []*c02Exp{e, w}}}}
+}
+
+// an expression that fixes the type of variable x (base type t) by itself
+func c02DetUse(rng *Rng, x string, t *c02Ty) *c02Exp {
+	v := &c02Exp{K: "var", Name: x}
+	if t.K == "string" {
+		switch rng.Intn(3) {
+		case 0:
+			return &c02Exp{K: "arith", Name: "+", Args: []*c02Exp{v, {K: "str", Lit: "\"\""}}}
+		case 1:
+			return &c02Exp{K: "record", Name: "Rec", Args: []*c02Exp{{K: "int", Lit: "1"}, v}}
+		}
+		return &c02Exp{K: "slice", Args: []*c02Exp{{K: "str", Lit: "\"k\""}, v}}
+	}
+	switch rng.Intn(4) {
+	case 0:
+		return &c02Exp{K: "arith", Name: Choose(rng, []string{"+", "*", "-"}), Args: []*c02Exp{v, {K: "int", Lit: "1"}}}
+	case 1:
+		return &c02Exp{K: "record", Name: "Rec", Args: []*c02Exp{v, {K: "str", Lit: "\"s\""}}}
+	case 2:
+		return &c02Exp{K: "global", Name: "slice.Take", Args: []*c02Exp{v, {K: "slice", Args: []*c02Exp{{K: "bool", Lit: "true"}}}}}
+	}
+	return &c02Exp{K: "slice", Args: []*c02Exp{{K: "int", Lit: "7"}, v}}
 }
 
 // one random function against an intended signature; nil when the attempt fails
 func c02RandFunc(rng *Rng, name string, sigs []*c02Sig, hazardKind string) *c02Func {
 	hazard := hazardKind == "generic"
-	g := &c02G{rng: rng, usedFn: map[string]bool{}, used: map[string]bool{}, sigs: sigs, allowGN: hazard, underscore: hazardKind == "underscore"}
+	g := &c02G{rng: rng, usedFn: map[int]bool{}, used: map[int]bool{}, sigs: sigs, allowGN: hazard, underscore: true}
 	g.nrigid = rng.Intn(4)
 	np := 1 + rng.Intn(4)
 	var params []c02Param
@@ -710,16 +823,21 @@ func c02RandFunc(rng *Rng, name string, sigs []*c02Sig, hazardKind string) *c02F
 		} else {
 			t = g.randTy(2, true)
 		}
-		if !hazard && t.K != "named" && t.hasGenericNamed() {
-			t = g.randTy(1, true)
-			if t.hasGenericNamed() {
-				t = c02Int
-			}
-		}
 		pn := string(rune('a' + i))
 		params = append(params, c02Param{Name: pn, Ty: t, Ann: !t.hasVar() && rng.Chance(65, 100)})
-		g.env = append(g.env, c02EnvVar{Name: pn, Ty: t, IsParam: true})
+		g.push(pn, t, true)
 		c02AddAtoms(t, &g.pool, seen)
+	}
+	if rng.Chance(35, 100) {
+		// two more parameters of one base type: candidates for a comparison between parameters
+		bt := Choose(rng, []*c02Ty{c02Int, c02Int, c02Str})
+		for k := 0; k < 2; k++ {
+			pn := string(rune('a' + np))
+			np++
+			params = append(params, c02Param{Name: pn, Ty: bt, Ann: rng.Chance(1, 2)})
+			g.push(pn, bt, true)
+		}
+		c02AddAtoms(bt, &g.pool, seen)
 	}
 	// result: composed from what the parameters offer
 	var rt *c02Ty
@@ -736,17 +854,18 @@ func c02RandFunc(rng *Rng, name string, sigs []*c02Sig, hazardKind string) *c02F
 		rt = g.randTy(2, false)
 	}
 	var body *c02Exp
-	if g.underscore {
-		// the hazard: "_" in a destructuring let whose right-hand side has no type yet at parse time
+	if rng.Chance(12, 100) {
+		// "_" in a destructuring let whose right-hand side (a parameter) has no type yet at parse time
 		tt := c02Tuple(g.poolTy(), g.poolTy())
 		pn := string(rune('a' + np))
 		params = append(params, c02Param{Name: pn, Ty: tt})
-		g.env = append(g.env, c02EnvVar{Name: "w1", Ty: tt.Args[0]})
+		g.push(pn, tt, true)
+		w := g.push("w1", tt.Args[0], false)
 		rest := g.genBlock(rt, 3, 2)
 		if rest == nil {
 			return nil
 		}
-		if !g.used["w1"] {
+		if !g.used[w.ID] {
 			rest = c02WrapFinal(rest, "w1")
 		}
 		body = &c02Exp{K: "lettup", Xs: []string{"w1", "_"}, Args: []*c02Exp{{K: "var", Name: pn}, rest}}
@@ -756,7 +875,21 @@ func c02RandFunc(rng *Rng, name string, sigs []*c02Sig, hazardKind string) *c02F
 	if body == nil {
 		return nil
 	}
-	return &c02Func{Name: name, Params: params, Body: body}
+	// parameters that were compared with each other get their type fixed by a later use
+	done := map[string]bool{}
+	for _, x := range g.needDet {
+		if done[x] {
+			continue
+		}
+		done[x] = true
+		for _, pa := range params {
+			if pa.Name == x {
+				body = c02WrapFinalExp(body, c02DetUse(rng, x, pa.Ty))
+			}
+		}
+	}
+	return &c02Func{Name: name, Params: params, Body: body,
+		Feats: map[string]int{"lambda_param_shadows_outer_name": g.nShadow, "comparison_between_two_parameters": len(g.needDet)}}
 }
 
 // ---------------------------------------------------------------- shapes: principal type by construction
